@@ -752,7 +752,7 @@ def _install_session(S, script):
     H["HttpStreamSession._externalize_request_body"] = may_fail("externalize", b"pointer body")
     H["_open_response_stream"] = may_fail("open_response", SObj(None, kind="Reader"))
     H["_read_batch_with_log_check"] = may_fail("read_batch", SObj(None, kind="AB", batch=SObj(None, kind="Batch"), custom_metadata=None))
-    H["_drain_stream"] = lambda S, r: None
+    H["_drain_stream"] = lambda S, r, *a: None
     H["strip_keys"] = lambda S, cm, *keys: cm
     H[AnnotatedBatch] = lambda S, batch=None, custom_metadata=None: SObj(None, kind="AnnotatedBatchOut", batch=batch, custom_metadata=custom_metadata)
     for nm in ("_post_with_retry", "_options_with_retry", "_request_with_retry"):
